@@ -34,7 +34,8 @@ def sh(cmd, cwd=None, timeout=3000, env=None):
 def build_all(coq_targets=()):
     """(Re)build harness against the current /repo tree, the Coq targets, fjm and the shim.
     Serialised across concurrently running checks by a file lock."""
-    os.makedirs(os.path.join(ROOT, ".work"), exist_ok=True)
+    for d in (".work", "ocaml/gen", "evidence", "replays"):
+        os.makedirs(os.path.join(ROOT, d), exist_ok=True)
     with open(os.path.join(ROOT, ".build.lock"), "w") as lk:
         fcntl.flock(lk, fcntl.LOCK_EX)
         t0 = time.time()
